@@ -205,7 +205,7 @@ func runCOMMIT(c *Ctx) {
 						}
 					}
 				}
-				if inRegion[ir.Outermost(fn)] {
+				if inRegion[ir.Outermost(fn)] || thinWrapper(c, fn) {
 					exit = "directly"
 					if g := calleeOrClosure(ci.Common()); g != nil && g.Blocks != nil && isOwn(P, g) && !inRegion[ir.Outermost(g)] {
 						// a one-call wrapper (`loadRoot(ctx)` = `m.load(ctx, m.root)`) is named by what it wraps
@@ -217,6 +217,9 @@ func runCOMMIT(c *Ctx) {
 							g = w
 						}
 						exit = ir.FuncName(g)
+						if thinWrapper(c, g) {
+							exit = "directly" // named when the walk reaches the wrapper's own single fallible call
+						}
 					}
 				}
 				descended := false
@@ -648,4 +651,22 @@ func wrappedCallee(P *ir.Program, g *ssa.Function) *ssa.Function {
 		}
 	}
 	return w
+}
+
+// thinWrapper: g changes nothing and makes exactly one call that can fail (`layerOf(key)` = the layer callback plus
+// error wrapping): on the way to a failing step it is not a place of its own.
+func thinWrapper(c *Ctx, g *ssa.Function) bool {
+	if g == nil || g.Blocks == nil || g.Parent() != nil || !isOwn(c.P, g) || len(c.Facts.EffectsIn(g)) > 0 {
+		return false
+	}
+	if o := g.Object(); o != nil && o.Exported() {
+		return false
+	}
+	n := 0
+	for _, ci := range CallsOf(g) {
+		if ok, _ := fallible(c, ci); ok {
+			n++
+		}
+	}
+	return n == 1 && len(g.Blocks) <= 4
 }
